@@ -18,7 +18,9 @@ call sequence of any length and every answer of the cache at each build:
 * `legal_handshakes` — a documented order ending in `Handshake` reaches the wire with the private
   keys of its key shares retained, offers the injected session, and resumes when the negotiated
   version is the session's;
-* `keys_backed` — (D12) in any order, generated key shares keep their private keys.
+* `keys_backed` — (D12) in any order, generated key shares keep their private keys;
+* `binder_of_bytes_sent` — in any order (any builds and edits of other ClientHello fields before), a
+  `Handshake` that offers a PSK sends the binder computed over exactly the bytes it sends.
 
 All are proved from two inductive invariants (`SessionCtl.inv`, `SessionCtl.pinv`) by induction over
 the call sequence; the per-call preservation lemmas live in `SessionCtl*.lean`.
@@ -121,7 +123,7 @@ theorem forbidden_err (cfg : Cfg) (hasCache : Bool) (ops : List Op) :
       cases a <;> simp_all [step, stepR, setPskOp, overridePsk, docAssert, failR, okR, R.andThen, outcomeOf]
     | _ => simp [isSetter] at hop
   · intro op hop hne
-    obtain ⟨hasCache', state, locked, tracker, calling, status, tRef, pRef, specT, userT, specP, userP, lT, lP, hsS, hsE, hT, hP, raw, ts, shares, filled, held, done⟩ := s
+    obtain ⟨hasCache', state, locked, tracker, calling, status, tRef, pRef, specT, userT, specP, userP, lT, lP, hsS, hsE, hT, hP, raw, ts, shares, filled, held, done, bfresh⟩ := s
     simp only at hd; subst hd
     cases op with
     | setTicket a =>
@@ -149,6 +151,53 @@ theorem forbidden_err (cfg : Cfg) (hasCache : Bool) (ops : List Op) :
     obtain ⟨s1, o1⟩ := r
     simp only at this; subst this
     rfl
+
+/-- In any call order — whatever builds, setters and edits of other ClientHello fields came before
+— a `Handshake` that does not leave through an error / panic before the hello is written
+(`stepR … = none`) and offers a PSK (`PskAllSet`) sends the binder that was computed
+over exactly the bytes it sends: the build `Handshake` always performs re-marshals the hello *and*
+recomputes the binder, also on a locked controller. (A controller that patches the binder only
+on the first build would send the binder of the old bytes after any edit.) -/
+theorem binder_of_bytes_sent (cfg : Cfg) (hasCache : Bool) (ops : List Op) (lr : LoadRes) :
+    let s0 := final cfg (St.start cfg hasCache) ops
+    s0.hsDone = false → (stepR cfg s0 (.handshake lr)).2 = none →
+    (step cfg s0 (.handshake lr)).1.hsDone = true ∧
+    ((step cfg s0 (.handshake lr)).1.state = .pskAllSet → (step cfg s0 (.handshake lr)).1.binderFresh = true) := by
+  intro s0 hd hok
+  have hinv : inv cfg s0 = true := inv_final cfg _ (inv_start cfg hasCache) ops
+  cases hg : cfg.golang with
+  | true =>
+    have hi := (inv_step cfg s0 (.handshake lr) hinv).1
+    have hb := build_golang_inv cfg true lr s0 hg hinv hd
+    have hdone : (step cfg s0 (.handshake lr)).1.hsDone = true := by
+      simp only [step, stepR, hd, Bool.false_eq_true, if_false, handshake_eq]
+      generalize buildHandshakeState cfg true lr s0 = r at hb ⊢
+      obtain ⟨s1, o1⟩ := r
+      obtain ⟨h1, h2, -, h4, h5⟩ := hb
+      simp only at h2; subst h2
+      exact (hsTail_inv cfg lr s1 h1 (by simp [hg]) (fun _ => h5)).2.2
+    refine ⟨hdone, ?_⟩
+    intro hst
+    simp only [inv, hg, if_true, Bool.and_eq_true, bne_iff_ne, ne_eq] at hi
+    exact absurd hst hi.1.1.1.1.1.2.1.2
+  | false =>
+    have hbi := build_parrot_inv cfg true lr s0 hg hinv hd
+    have hbf := build_binder_fresh cfg lr s0 hg hinv hd
+    simp only [step, stepR, hd, Bool.false_eq_true, if_false, handshake_eq] at hok ⊢
+    generalize buildHandshakeState cfg true lr s0 = r at hbi hbf hok ⊢
+    obtain ⟨s1, o1⟩ := r
+    cases o1 with
+    | some o => simp [R.andThen] at hok
+    | none =>
+      have hl : s1.locked = true := hbi.2.2.2 rfl rfl
+      have hf := hbf rfl
+      simp only [R.andThen, hsTail, hl, if_true, okR]
+      refine ⟨trivial, ?_⟩
+      intro hst
+      simp only [Bool.or_eq_true, bne_iff_ne, ne_eq] at hf
+      rcases hf with hf | hf
+      · exact absurd hst hf
+      · exact hf
 
 /-! ## documented call orders -/
 
@@ -205,8 +254,9 @@ private theorem pinvRest_basic {cfg : Cfg} {s : St} {d : Doc} (h : pinvRest cfg 
     (cfg.golang = false → d.built = s.locked)
     ∧ (d.done = true → s.raw.isSome = true)
     ∧ (d.built = true → s.sharesFilled = true ∧ s.keysHeld = true)
-    ∧ (d.built = true → d.injected = true → d.fresh = true) := by
-  simp only [pinvRest, Bool.and_eq_true, Bool.or_eq_true, beq_iff_eq, Bool.not_eq_true'] at h
+    ∧ (d.built = true → d.injected = true → d.fresh = true)
+    ∧ (d.done = true → s.state = .pskAllSet → s.binderFresh = true) := by
+  simp only [pinvRest, Bool.and_eq_true, Bool.or_eq_true, beq_iff_eq, bne_iff_ne, ne_eq, Bool.not_eq_true'] at h
   cases hg : cfg.golang <;> simp only [hg, Bool.false_eq_true, if_false, if_true, beq_iff_eq] at h <;> grind
 
 /-- bytes `SessionTicketExtension.Read` emits (shared `Ext` model): type 35, length, the ticket. -/
@@ -278,19 +328,22 @@ private theorem legalRun_handshake (cfg : Cfg) (ops : List Op) (lr : LoadRes) (d
     | none => simp [hs] at h
     | some d1 => simp only [hs] at h; exact ih d1 h
 
-/-- Every documented order ending in `Handshake`: all calls succeed; the handshake reaches the
-wire (`hsDone`, a marshalled hello) with the private keys of its key shares retained, so the
-TLS 1.3 key-share check cannot fail whatever is negotiated; an injected TLS 1.2 session is resumed
-when TLS 1.2 is negotiated, an injected TLS 1.3 session when TLS 1.3 is. -/
+/-- Every documented order ending in `Handshake` — including any number of builds and edits of
+other ClientHello fields (SetClientRandom, SNI, ALPN, …) before it: all calls succeed; the
+handshake reaches the wire (`hsDone`, a marshalled hello) with the private keys of its key shares
+retained, so the TLS 1.3 key-share check cannot fail whatever is negotiated; a PSK on the wire
+carries the binder computed over exactly the bytes sent; an injected TLS 1.2 session is resumed when
+TLS 1.2 is negotiated, an injected TLS 1.3 session when TLS 1.3 is. -/
 theorem legal_handshakes (cfg : Cfg) (hwf : cfg.WF = true) (hasCache : Bool) (ops : List Op) (lr : LoadRes)
     (hl : Legal cfg hasCache (ops ++ [.handshake lr]) = true) :
     let s := final cfg (St.start cfg hasCache) (ops ++ [.handshake lr])
     (∀ o ∈ outcomes cfg (St.start cfg hasCache) (ops ++ [.handshake lr]), o = .ok)
     ∧ s.hsDone = true ∧ s.raw.isSome = true ∧ s.keysHeld = true
     ∧ (∀ n : Neg, hsCompletes n s = true)
+    ∧ (s.state = .pskAllSet → s.binderFresh = true)
     ∧ (∀ d', legalRun cfg (Doc.init cfg hasCache) (ops ++ [.handshake lr]) = some d' →
         (d'.injT = some .real → ∀ n : Neg, n.tls13 = false → hsResumes n s = true)
-        ∧ (d'.injP = some .real → ∀ n : Neg, n.tls13 = true → hsResumes n s = true)) := by
+        ∧ (d'.injP = some .real → (∀ n : Neg, n.tls13 = true → hsResumes n s = true) ∧ s.binderFresh = true)) := by
   intro s
   have hl' := hl
   simp only [Legal, Option.isSome_iff_exists] at hl'
@@ -300,8 +353,8 @@ theorem legal_handshakes (cfg : Cfg) (hwf : cfg.WF = true) (hasCache : Bool) (op
   have hp := hrun.1
   have hrest : pinvRest cfg s d' = true := by simp only [pinv, Bool.and_eq_true] at hp; exact hp.2
   have hsd : s.hsDone = true := by rw [pinv_done hp, hdone]
-  obtain ⟨-, hraw, hkeys, hfr⟩ := pinvRest_basic hrest
-  refine ⟨hrun.2, hsd, hraw hdone, (hkeys hbuilt).2, ?_, ?_⟩
+  obtain ⟨-, hraw, hkeys, hfr, hbind⟩ := pinvRest_basic hrest
+  refine ⟨hrun.2, hsd, hraw hdone, (hkeys hbuilt).2, ?_, hbind hdone, ?_⟩
   · intro n; simp [hsCompletes, (hkeys hbuilt).2]
   · intro d'' hd''
     rw [hd'] at hd''
@@ -312,10 +365,12 @@ theorem legal_handshakes (cfg : Cfg) (hwf : cfg.WF = true) (hasCache : Bool) (op
       obtain ⟨hlT, hr⟩ := hf (hfr hbuilt (by simp [Doc.injected, hinj]))
       obtain ⟨-, hs1, -⟩ := hb hbuilt
       simp [hsResumes, hr, hn, slots, slotsOf, hlT, hu, hs1, TArg.ext]
-    · intro hinj n hn
+    · intro hinj
       obtain ⟨-, -, -, -, -, hu, hb, hf⟩ := pinvRest_injP hrest hinj
       obtain ⟨hlP, hr⟩ := hf (hfr hbuilt (by simp [Doc.injected, hinj]))
-      obtain ⟨-, hs1, -, -⟩ := hb hbuilt
+      obtain ⟨hst, hs1, -, -⟩ := hb hbuilt
+      refine ⟨?_, hbind hdone hst⟩
+      intro n hn
       simp [hsResumes, hr, hn, slots, slotsOf, hlP, hu, hs1, PArg.ext]
 
 /-! ## non-vacuity: concrete documented orders on concrete configurations -/
@@ -342,6 +397,15 @@ example : ∃ d', legalRun ticketParrot (Doc.init ticketParrot false) orderTicke
 /-- `injected_psk_verbatim`'s hypotheses are met by `orderPsk`. -/
 example : ∃ d', legalRun pskParrot (Doc.init pskParrot false) orderPsk = some d' ∧ d'.injP = some .real ∧ d'.fresh = true :=
   ⟨_, rfl, by decide, by decide⟩
+/-- SetSessionCache; SetPskExtension(real); BuildHandshakeState; an edit (SetClientRandom); Handshake. -/
+def orderPskEdit : List Op := [.setCache, .setPsk .real, .build .none, .edit, .handshake .none]
+/-- `binder_of_bytes_sent` / `legal_handshakes`: a build, an edit, then Handshake on a locked controller —
+legal, and the binder is the one of the bytes sent. -/
+example : Legal pskParrot false orderPskEdit = true
+    ∧ outcomes pskParrot (St.start pskParrot false) orderPskEdit = [.ok, .ok, .ok, .ok, .ok]
+    ∧ (final pskParrot (St.start pskParrot false) orderPskEdit).state = .pskAllSet
+    ∧ (final pskParrot (St.start pskParrot false) orderPskEdit).binderFresh = true
+    ∧ (final pskParrot (St.start pskParrot false) (orderPskEdit.take 4)).locked = true := by decide
 /-- forbidden calls exist and are refused: a second injection, a setter after the build, a setter without a cache. -/
 example : outcomes ticketParrot (St.start ticketParrot true) [.setTicket .real, .setTicket .forged] = [.ok, .panic .documented .state]
     ∧ outcomes ticketParrot (St.start ticketParrot true) [.build .none, .setTicket .real] = [.ok, .panic .documented .locked]
